@@ -69,7 +69,7 @@ def model_arg(fn, a):
     if fn in (1, 2, 3):
         return [mdb, me(nextra[0])] + a[2:]
     if fn == 10:
-        return [mdb, a[1], a[2], norm(E2E_FIELDS)]
+        return [mdb, a[1], a[2], norm(E2E_FIELDS)]     # (the style index a[3] is not the model's business)
     return [mdb] + a[1:]
 
 # ----------------------------------------------------------------------------------------
@@ -289,9 +289,10 @@ def impl_py_run(a, strict=False):
 RUN_SCH = ('T', DB_SCH, ('L', 'S'), 'I', ('L', 'S'))
 
 E2E_FIELDS = ['title', 'year', 'note']
+E2E_STYLES = ['unsrt', 'plain', 'alpha', 'unsrtalpha']
 def e2e_norm(db):
     """the end-to-end stream recovers values from rendered text, so the value of field f of object i is
-    the token <F><i> whatever the (possibly shrunk) spec says; only title/year/note/crossref are kept"""
+    the token <F><i> and its key is k<i>, whatever the (possibly shrunk) spec says; only title/year/note/crossref are kept"""
     ndb, _ = norm_spec(db)
     out = []
     for k, e in ndb:
@@ -302,7 +303,7 @@ def e2e_norm(db):
                 fs.append([norm(fl), norm('%s%d' % (fl[0].upper(), e[0]))])
             elif fl == 'crossref':
                 fs.append([norm(fl), [c for c in v if (48 <= c < 58 or 65 <= c < 91 or 97 <= c < 123)]])
-        out.append([[c for c in k if (48 <= c < 58 or 65 <= c < 91 or 97 <= c < 123)] or [107], [e[0], fs, []]])
+        out.append([norm('k%d' % e[0]), [e[0], fs, []]])       # the key of object i is k<i>
     return norm_spec(out)[0]
 def bib_text(ndb):
     out = []
@@ -313,8 +314,9 @@ def bib_text(ndb):
 
 def impl_e2e(a):
     """end to end from .bib text: the real BibTeX parser feeding (1) the BST interpreter with the
-    field-dumping style and (2) pybtex.format_from_string with the stock unsrt style and the plaintext backend;
-    values are tokens T<i> / Y<i> / N<i>, recovered from the rendered text"""
+    field-dumping style and (2) pybtex.format_from_string with a stock style (unsrt / plain / alpha / unsrtalpha) and
+    the plaintext backend; values are tokens T<i> / Y<i> / N<i> and the entry is identified by its author token A<i>,
+    all recovered from the rendered text"""
     import io, re, pybtex
     from pybtex import errors
     from pybtex.bibtex import bst
@@ -335,16 +337,20 @@ def impl_e2e(a):
             obs.append([norm(lines[i]), [[] if l == '?' else [norm(l[1:-1])] for l in lines[i + 1:i + 4]]])
         return obs
     def run_py():
-        text = pybtex.format_from_string(bib, style='unsrt', citations=list(cits), output_backend='plaintext', min_crossrefs=a[2])
+        style = E2E_STYLES[a[3] % len(E2E_STYLES)] if len(a) > 3 else 'unsrt'
+        text = pybtex.format_from_string(bib, style=style, citations=list(cits), output_backend='plaintext', min_crossrefs=a[2])
         obs = []
         for line in text.split('\n')[:-1]:
-            assert re.match(r'\[\d+\] ', line), line
+            assert re.match(r'\[\w+\] ', line), line
+            line = line.split('] ', 1)[1]
+            who = re.findall(r'\bA\d+\b', line)
+            assert len(who) == 1, line
             vals = []
             for letter in 'TYN':
                 m = re.findall(r'\b%s\d+\b' % letter, line)
                 assert len(m) <= 1, line
                 vals.append([norm(m[0])] if m else [])
-            obs.append([[], vals])
+            obs.append([norm('k' + who[0][1:]), vals])
         return obs
     res = []
     for run in (run_bst, run_py):
@@ -368,7 +374,7 @@ FUNCS = {
     6: ('Python engine: BaseStyle.format_bibliography (errors captured)', guarded(impl_py_run), RUN_SCH),
     7: ('BST engine, strict mode', guarded(lambda a: impl_bst_run(a, True)), RUN_SCH),
     8: ('Python engine, strict mode', guarded(lambda a: impl_py_run(a, True)), RUN_SCH),
-    10: ('end to end: .bib text -> BibTeX parser -> BST interpreter / pybtex.format_from_string(unsrt, plaintext)', guarded(impl_e2e), ('T', DB_SCH, ('L', 'S'), 'I')),
+    10: ('end to end: .bib text -> BibTeX parser -> BST interpreter / pybtex.format_from_string(stock style, plaintext)', guarded(impl_e2e), ('T', DB_SCH, ('L', 'S'), 'I', 'N')),
     9: ('Entry._find_field, every entry x every name', guarded(impl_find_all), ('T', DB_SCH, ('L', 'S'), 'B')),
 }
 
@@ -381,8 +387,9 @@ def canon(fn, r):
     if fn in (5, 6) and isinstance(r, list) and r[:1] == [0]:
         return [0, [kinds(r[1][0]), r[1][1]]]
     if fn == 10 and isinstance(r, list) and len(r) == 2:
-        # the rendered text does not show keys: entries are compared by position
-        return [([0, [kinds(x[1][0]), [o[1] for o in x[1][1]]]] if x[:1] == [0] else canon_res(x)) for x in r]
+        # the stock styles sort differently: entries are compared by (lower-cased) key, not by position
+        low = lambda k: [c + 32 if 65 <= c < 91 else c for c in k]
+        return [([0, [kinds(x[1][0]), sorted([low(o[0]), o[1]] for o in x[1][1])]] if x[:1] == [0] else canon_res(x)) for x in r]
     return r
 
 # ----------------------------------------------------------------------------------------
@@ -488,10 +495,11 @@ def oracle(fn, a, out):
         m = oracle(5, [ndb, a[1], a[2], norm(E2E_FIELDS)], out[0])
         if m:
             return 'end to end, ' + m
-        vb = [o[1] for o in out[0][1][1]]; vp = [o[1] for o in out[1][1][1]]
+        vb = sorted([S(o[0]).lower(), o[1]] for o in out[0][1][1]); vp = sorted([S(o[0]).lower(), o[1]] for o in out[1][1][1])
         if vb != vp:
-            return 'end to end: the engines disagree: BST sees %r, the Python unsrt style renders %r' % (
-                [[S(v[0]) if v else None for v in r] for r in vb], [[S(v[0]) if v else None for v in r] for r in vp])
+            show = lambda rows: [(k, [S(v[0]) if v else None for v in r]) for k, r in rows]
+            return 'end to end: the engines disagree: BST sees %r, the Python %s style renders %r' % (
+                show(vb), E2E_STYLES[a[3] % len(E2E_STYLES)] if len(a) > 3 else 'unsrt', show(vp))
         cited = cited_entries(ndb, table, a[1])
         if any(dangling(table, e) for e in cited) and 0 not in [(k[0] if isinstance(k, list) else k) for k in out[1][1][0]]:
             return 'end to end: a cited entry has a dangling crossref but the Python engine reported no bad cross-reference'
@@ -626,7 +634,9 @@ def _warmup():
     (otherwise every worker pays the imports inside its first, alarm-guarded, case)"""
     try:
         a = [[['a', [0, [['crossref', 'a']], []]]], ['a'], 2]
-        impl_e2e(norm(a)); impl_py_run(norm(a + [['title']])); impl_bst_run(norm(a + [['title']]))
+        for st in range(len(E2E_STYLES)):
+            impl_e2e(norm(a + [st]))
+        impl_py_run(norm(a + [['title']])); impl_bst_run(norm(a + [['title']]))
     except Exception:
         pass
 
@@ -722,10 +732,10 @@ def gen(tier, rng):
                 db = e2e_db(n, [x.upper() if (x and rng.random() < 0.3) else x for x in xs], fs)
                 keys = [k for k, _ in db]
                 cits = ['*'] if rng.random() < 0.3 else [k.upper() if rng.random() < 0.3 else k for k in rng.sample(keys, len(keys))]
-                yield ('end_to_end', 10, [db, cits, rng.choice([2, 1])])
-    f5bib = [['child', [0, [['crossref', 'parent']], []]], ['parent', [1, [['title', 'T1'], ['year', 'Y1'], ['note', 'N1']], []]]]
-    yield ('pinned', 10, [f5bib, ['child', 'parent'], 2]); yield ('pinned', 10, [f5bib, ['*'], 1])
-    yield ('pinned', 10, [[['a', [0, [['crossref', 'a']], []]], ['b', [1, [['crossref', 'a'], ['note', 'N1']], []]]], ['b', 'a'], 2])
+                yield ('end_to_end', 10, [db, cits, rng.choice([2, 1]), rng.choice([0, 0, 1, 2, 3])])
+    f5bib = [['k0', [0, [['crossref', 'k1']], []]], ['k1', [1, [['title', 'T1'], ['year', 'Y1'], ['note', 'N1']], []]]]
+    yield ('pinned', 10, [f5bib, ['k0', 'k1'], 2, 0]); yield ('pinned', 10, [f5bib, ['*'], 1, 1])
+    yield ('pinned', 10, [[['k0', [0, [['crossref', 'k0']], []]], ['k1', [1, [['crossref', 'k0'], ['note', 'N1']], []]]], ['k1', 'k0'], 2, 2])
     # ---- long chains and big cycles (termination; Python recursion stays well below its limit here)
     for n in ([20, 60] if quick else [20, 60, 150]):
         ch = [['k%d' % i, mk(i, crossref='k%d' % (i + 1))] for i in range(n)] + [['k%d' % n, mk(n, title=True)]]
@@ -754,7 +764,7 @@ def describe(fn, a):
         return {'object': e[0], 'fields': {S(k): S(v) for k, v in e[1]}, 'persons': {S(r): [S(p) for p in ps] for r, ps in e[2]}}
     d = {'function': FUNCS[fn][0], 'database': [[S(k), ent(e)] for k, e in a[0]]}
     if fn == 10:
-        d['citations'] = [S(c) for c in a[1]]; d['min_crossrefs'] = a[2]; d['bib'] = bib_text(e2e_norm(a[0]))
+        d['python_style'] = E2E_STYLES[a[3] % len(E2E_STYLES)] if len(a) > 3 else 'unsrt'; d['citations'] = [S(c) for c in a[1]]; d['min_crossrefs'] = a[2]; d['bib'] = bib_text(e2e_norm(a[0]))
     elif fn == 9:
         d['fields'] = [S(f) for f in a[1]]; d['bib_data_passed'] = bool(a[2])
         del d['function']; d = dict(function=FUNCS[fn][0], **d)
